@@ -475,6 +475,9 @@ func genL2(t *rapid.T) Case {
 	if rapid.IntRange(0, 5).Draw(t, "morechunked") == 0 {
 		c.Op = "blob-put-chunked"
 	}
+	if rapid.IntRange(0, 11).Draw(t, "moreblobread") == 0 {
+		c.Op = rapid.SampledFrom([]string{"blob-get", "blob-head"}).Draw(t, "blobread")
+	}
 	p := &c.P
 	p.Size = rapid.SampledFrom([]int{0, 1, 5, 16, 31, 64, 96}).Draw(t, "size")
 	genTopology(t, &c, max(p.Size-1, 0), true)
@@ -530,6 +533,31 @@ func genL2(t *rapid.T) Case {
 		p.HostChunk = (p.Chunk > 0 || p.MaxPut > 0) && rapid.IntRange(0, 2).Draw(t, "hostchunk") == 0
 		if rapid.IntRange(0, 9).Draw(t, "bloblimit") == 0 {
 			p.BlobLimit = rapid.SampledFrom([]int{8, 20, 64}).Draw(t, "bloblimitv")
+		}
+	}
+	// foreign layers: the descriptor carries URLs on external hosts, registry and mirrors answer 404
+	if (c.Op == "blob-get" || c.Op == "blob-head") && rapid.IntRange(0, 9).Draw(t, "ext") < 6 {
+		p.ExtURLs = rapid.IntRange(1, 2).Draw(t, "exturls")
+		if p.ExtURLs == 2 && rapid.IntRange(0, 2).Draw(t, "extdead?") > 0 {
+			p.ExtDead = rapid.SampledFrom([]string{"404", "404", "404", "nohost"}).Draw(t, "extdead")
+		}
+		for i := 0; i < p.ExtURLs; i++ {
+			var h HostSpec
+			n := rapid.IntRange(0, c.Limit+1).Draw(t, "extwlen")
+			for j := 0; j < n; j++ {
+				l := genLetter(t, "0.004", max(p.Size-1, 0), true)
+				if l.K == "st" && l.S == 401 {
+					l = Letter{K: "st", S: 502}
+				}
+				h.Word = append(h.Word, l)
+			}
+			if rapid.IntRange(0, 5).Draw(t, "exttail") == 0 {
+				h.Tail = &Letter{K: "st", S: rapid.SampledFrom([]int{500, 502, 504, 429, 503}).Draw(t, "exttails")}
+			}
+			p.ExtHosts = append(p.ExtHosts, h)
+		}
+		if len(c.Mirrors) > 1 && rapid.Bool().Draw(t, "extfewmirrors") {
+			c.Mirrors = c.Mirrors[:1] // keep the attempt budget of the first (registry) request small
 		}
 	}
 	switch c.Op {
